@@ -47,6 +47,13 @@ def mapRaces (impl : String) : List String :=
     fn.startsWith pre && Sky.Gen.C32Facts.directAccessors.contains (fn.drop pre.length).toString))
 
 def stepLine (_ : Unit) (op impl : String) : Unit × String × Verdict :=
+  -- calls queued on the strand for more than a second when Shutdown comes: all of them return and Shutdown returns
+  -- (strand model: every blocking step of Strand() also watches quit — the regenerated fact `strandWatchesQuit`)
+  if op.startsWith "runs " then
+    let k := ((op.splitOn " ").getD 2 "0")
+    let want := "S|calls=" ++ k ++ "/" ++ k ++ "|shutdown=ok"
+    if impl == want then ((), impl, .unknown)
+    else ((), want ++ " [property: Shutdown terminates and every queued pool call returns]", .fail) else
   if !(op.startsWith "run ") && !(op.startsWith "runq ") && !(op.startsWith "runb ") then ((), "bad-op", .unknown) else
   if !(mapRaces impl).isEmpty then
     ((), "rejected: data race on the pool maps reported by the race detector: " ++ ";".intercalate (mapRaces impl), .fail) else
